@@ -7,7 +7,7 @@ use biscuit_auth::datalog::SymbolTable;
 use biscuit_auth::{AuthorizerBuilder, Biscuit};
 use rayon::prelude::*;
 use serde_json::json;
-use std::collections::{BTreeMap, BTreeSet};
+use std::collections::{BTreeMap, BTreeSet, HashMap};
 use std::convert::TryFrom;
 use std::sync::atomic::{AtomicUsize, Ordering};
 
@@ -577,6 +577,44 @@ pub fn run(tier: Tier) {
             let class = if name.contains("shape") { "three-operators".to_string() } else { name.clone() };
             round_trip(&ctx, "operator-tree", &class, &item, !name.contains("shape"), &counters);
         });
+    }
+
+    // ---------------- (3d) items whose parameters are bound: what is printed is the item with the values in place
+    {
+        let values: Vec<(&str, Term)> = vec![("int", b::int(7)), ("string", b::string("a \"b\"")), ("array", Term::Array(vec![b::int(1), Term::Null]))];
+        for t in crate::c20::templates() {
+            for (vn, v) in &values {
+                let base = match crate::c20::parse_item(t.kind, t.src) {
+                    Ok(i) => i,
+                    Err(_) => continue,
+                };
+                let mut item = base.clone();
+                let mut env: HashMap<String, Term> = HashMap::new();
+                let mut kenv: HashMap<String, biscuit_auth::PublicKey> = HashMap::new();
+                let mut ok = true;
+                for (pi, pn) in t.term_params.iter().enumerate() {
+                    // map-key parameters only take integers and strings; sets must stay homogeneous
+                    let val = if t.key_params.contains(pn) || t.name.contains("set-members") || t.name.contains("all-expression-literal") || pi > 0 { b::int(7 + pi as i64) } else { v.clone() };
+                    ok &= crate::c20::set_term_strict(&mut item, pn, &val).is_ok();
+                    env.insert(pn.to_string(), val);
+                }
+                for pn in t.scope_params.iter() {
+                    ok &= crate::c20::set_scope_strict(&mut item, pn, k2().public()).is_ok();
+                    kenv.insert(pn.to_string(), k2().public());
+                }
+                let expected = crate::c20::expected_of(&base, &env, &kenv);
+                if let (true, Some(exp)) = (ok, expected) {
+                    counters.items.fetch_add(1, Ordering::Relaxed);
+                    match item.print() {
+                        Err(p) => ctx.violation_lazy(format!("C14/panic/{}", panic_site(&p)), || json!({"template": t.src, "panic": p})),
+                        Ok(text) => match exp.parse_like(&text) {
+                            Ok(back) if back.same(&exp) => {}
+                            other => ctx.violation_lazy(format!("C14/bound-parameters/{}/{vn}", t.name), || json!({"template": t.src, "printed": text, "expected_item": format!("{exp:?}"), "parsed_back": format!("{other:?}")})),
+                        },
+                    }
+                }
+            }
+        }
     }
 
     // ---------------- (4) items: scopes, check kinds, alternatives, policies
